@@ -338,8 +338,9 @@ def file_of(r, rows, delim, transposed=False, trailing_newline=True, blanks=0, c
 
 
 def dataset(r, n=22, d=4):
-    """generic points (no ties) for the embedding methods"""
-    return rand_matrix(r, n, d)
+    """generic points (no ties) for the embedding methods, coordinates in [-5, 5] so that Gaussian kernels of width ~1 are
+    neither 0 nor 1"""
+    return [[Fraction(r.range(-50000, 50000), 10000) for _ in range(d)] for _ in range(n)]
 
 
 def base_opts(method=None, extra=()):
@@ -468,6 +469,10 @@ def gen_cases(env, r, quick):
         cases.append(Case("logging:" + lvl, base_opts("pca", [(lvl, None, "long")]), data_txt, intended=data, tags={"embed", "logging"}))
     # 7. file formats through passthru: delimiters, transposition flags, blank lines, junk, ragged, empty, missing newline
     delims = [",", ";", "\t", " ", "|", ":"]
+    two = [[Fraction(1), Fraction(2)], [Fraction(3), Fraction(4)]]
+    cases.append(Case("file:no-final-newline:tiny", base_opts("passthru"), "1,2\n3,4", intended=two,
+                      tags={"file", "no-final-newline"}))
+    cases.append(Case("file:plain:tiny", base_opts("passthru"), "1,2\n3,4\n", intended=two, tags={"file", "plain"}))
     nfiles = 40 if quick else 400
     for n in range(nfiles):
         dl = delims[n % len(delims)]
@@ -621,6 +626,10 @@ def judge(ctx, env, cases, use_model=True):
             elif lr.startswith("exc|"):
                 idx.append(i)
                 lines.append(model_line(cases[i], "exc"))
+            elif lr.startswith("ok|"):
+                # NaN / inf in the library's result: not representable in the exact model; property oracles only
+                expects[i] = None
+                ctx.stat("library-result-not-finite")
         if lines:
             rc, out, err = ctx.run_model("model_c20", lines)
             if rc == 0 and len(out) == len(lines):
@@ -715,6 +724,8 @@ def judge_one(ctx, env, c, plan, lr, exp, act):
     if exp is not None and (exp["exit"] == 0) != (act["rc"] == 0):
         # library behaviour the model does not predict (harness failed?) or a real disagreement
         ctx.stat("exit-mismatch")
+        ctx.extra.setdefault("exit_mismatch_cases", []).append(
+            {"label": c.label, "model": [exp["exit"], exp["why"]], "cli": act["rc"], "stderr": act["stderr"][-160:], "harness": small(lr or "", 80)})
         if lr is not None and lr.startswith("abort:"):
             ctx.fail("abort:lib:%s:%s" % (lr[6:], ident), "the library aborts in-process (%s) with the parameters the CLI builds for `%s`"
                      % (lr[6:], " ".join(D["argv"])), case=D, detail={"harness": lr, "stderr": getattr(ctx, "last_abort_stderr", "")[-1200:]})
